@@ -318,9 +318,10 @@ def _components(mol):
 
 
 DERIVED_CONSTRUCTORS = ('augSub', 'augSubs', 'opAnd', 'opSub', 'opOr', 'copyDunder')
+ORACLE_ONLY_OPS = ('opIor', 'compose', 'setName')    # `|=` (in-place union), `^` / compose (reads both, returns a CGR), name setter
 REVALIDATING_OPS = {'addBond', 'delBond', 'delAtom', 'exitOk', 'substructure', 'fixStereo'}
 NEUTRAL_OPS = {'read', 'fixStereo', 'fixStructure', 'calcLabels', 'flush', 'enter', 'exitOk', 'setXY', 'setMeta', 'copy',
-               'substructure', 'union', 'split'} | set(DERIVED_CONSTRUCTORS)
+               'substructure', 'union', 'split', 'compose', 'setName'} | set(DERIVED_CONSTRUCTORS)
 
 
 def op_touched(op, mol_before):
@@ -479,6 +480,10 @@ class Flags:
         name, o = op[0], op[1]
         if name == 'remap':
             self.renumbered.add(o)
+        elif name == 'opIor':
+            self.renumbered.add(o)
+            if op[2] in self.h_copied:
+                self.h_copied.add(o)
         elif name == 'union':
             self.renumbered.add(created if created is not None else o)
             if o in self.h_copied or op[2] in self.h_copied:
@@ -617,6 +622,14 @@ def apply_op(objs, op):
             res = [_copy.copy(m)]
         objs.extend(res)
         created = len(objs) - 1 if res else None
+    elif name == 'opIor':       # `m |= other`: in-place union with renumbering; must hand back the same object
+        r = m.__ior__(objs[a[1]])
+        if r is not m:
+            raise RuntimeError('__ior__ did not return the object itself')
+    elif name == 'compose':     # `m ^ other`: reads both molecules, returns a CGR; must not change either
+        (m ^ objs[a[1]]) if a[1] != a[0] else m.compose(m.copy())
+    elif name == 'setName':
+        m.name = f'n{a[1]}'
     elif name in BULK_OPS:      # bulk edits: only in the property-level search (not modelled)
         getattr(m, name)()
     else:
@@ -1096,7 +1109,8 @@ def constructor_histories(smi):
     half = ids[:max(1, len(ids) // 2)]
     comps = [sorted(c) for c in m.connected_components]
     ctors = [[['copy', 0, 0, 0]], [['copy', 0, 1, 1]], [['copyDunder', 0]], [['split', 0]], [['substructure', 0, 1, ids]],
-             [['substructure', 0, 0, comps[0]]], [['augSub', 0, 1, ids[:1]]], [['augSubs', 0, 2, ids[:1]]], [['opAnd', 0, half]],
+             [['substructure', 0, 0, comps[0]]], [['augSub', 0, 1, ids[:1]]], [['augSub', 0, 0, ids[:1]]], [['augSub', 0, 3, ids[-1:]]],
+             [['augSubs', 0, 2, ids[:1]]], [['opAnd', 0, half]],
              [['opOr', 0, 0]], [['union', 0, 0, 1, 1]]]
     if len(ids) > 1:
         ctors.append([['opSub', 0, ids[-1:]]])
@@ -1114,7 +1128,8 @@ def constructor_histories(smi):
             h += [['addAtom', k, 7, -1, 0], ['addBond', k, pids[0], big, 1, 0], ['enter', k], ['setCharge', k, big, 1], ['exitOk', k]]
             if len(pids) > 1:
                 h.append(['delAtom', k, pids[-1], 0])
-            h += [['remap', k, [(pids[0], big + 7)]], ['setXY', k, big, 3, 4], ['read', 0, '__cached_method___str__']]
+            h += [['remap', k, [(pids[0], big + 7)]], ['setXY', k, big, 3, 4], ['setName', k, k], ['compose', k, 0], ['opIor', k, 0],
+                  ['read', 0, '__cached_method___str__']]
         # and the other way round: edit the source, the returned objects must stay
         h += [['addAtom', 0, 8, -1, 0], ['delAtom', 0, ids[0], 0]] + [['read', k, '__cached_method___str__'] for k in range(1, len(objs))]
         out.append(h)
@@ -1274,7 +1289,19 @@ def correspond(ctx):
     for smi in CONSTRUCTOR_SEEDS[:5 if ctx.quick else 9]:
         for h in constructor_histories(smi):
             if not any(op[0] in DERIVED_CONSTRUCTORS for op in h):
-                cases.append(('constructors', smi, h))
+                # for the model: `|=` is union(remap=True, copy=False); compose / name setter are not modelled (oracle only)
+                hk = [['union', op[1], op[2], 1, 0] if op[0] == 'opIor' else op for op in h if op[0] not in ('compose', 'setName')]
+                cases.append(('constructors', smi, hk))
+    for smi in ALPHABET_SEEDS[:3] + ANY_SEEDS[:2]:
+        m0 = fresh_seed(smi)
+        ids0 = list(m0._atoms)
+        b0 = [(n, k) for n, k, _ in m0.bonds()]
+        rd = [['read', 0, k] for k in CORE_READS]
+        for tail in ([['fixStructure', 0, 1], ['fixStereo', 0]], [['enter', 0], ['exitOk', 0]], [['calcLabels', 0], ['fixStructure', 0, 0]]):
+            cases.append(('private-skip', smi, rd + [['delBond', 0, b0[0][0], b0[0][1], 1]] + tail + rd))
+            cases.append(('private-skip', smi, rd + [['delAtom', 0, ids0[-1], 1]] + tail + rd))
+            if tail[0][0] != 'enter':   # an atom added with the private flag is unlabelled until fix_structure: copy()/enter raise
+                cases.append(('private-skip', smi, rd + [['addAtom', 0, 7, -1, 1], ['addBond', 0, ids0[0], max(ids0) + 1, 1, 1]] + tail + rd))
     run_batch(ctx, cases, 'numbering-constructors')
     ctx.dist('numbering-constructor-histories', len(cases))
     # 0c'. ReactionContainer.copy independence (anchored file chython/containers/reaction.py; not part of the model)
